@@ -194,6 +194,47 @@ def edge_other_scopes(tier):
 
 
 # ---------------------------------------------------------------------------
+# strings / pods
+# ---------------------------------------------------------------------------
+
+
+def pstr_scopes(tier):
+    q = []
+    for w in (1, 2):
+        for size in (0, 1, 2, 3, 4, 5, 6, 9):
+            q.append(S("pstr", w=w, size=w - 1 + size if size else max(w - 1, 0), chars=2))
+        q.append(S("pstr", w=w, size=w + 4, chars=3, bytes=0))
+    # prefix maximum: 254/255/256/257 payload bytes behind a u8 prefix, 65534..65537 behind u16
+    for pay in (254, 255, 256, 257):
+        q.append(S("pstr", w=1, size=1 + pay, chars=1, bytes=0))
+    for pay in (65534, 65535, 65536, 65537):
+        q.append(S("pstr", w=2, size=2 + pay, chars=1, bytes=0, alphabet="61,e9"))
+    if tier == "thorough":
+        for w in (1, 2):
+            for size in range(0, 18):
+                q.append(S("pstr", w=w, size=w + size, chars=3, bytes=1 if size <= 4 else 0))
+            q.append(S("pstr", w=w, size=w + 7, chars=4, bytes=0, timeout=3000))
+            q.append(S("pstr", w=w, size=w + 16, chars=4, bytes=0, timeout=3000))
+    return q
+
+
+def podstr_scopes(tier):
+    q = [S("podstr", n=n, chars=2) for n in (0, 1, 2, 3, 4)]
+    q += [S("podstr", n=5, chars=2, bytes=0), S("podstr", n=7, chars=3, bytes=0), S("podstr", n=10, chars=3, bytes=0)]
+    if tier == "thorough":
+        q += [S("podstr", n=n, chars=4, bytes=0, timeout=3000) for n in (3, 4, 5, 7, 10)]
+    return q
+
+
+def pod_scopes(tier):
+    return [S("pod", kind=k) for k in (0, 1, 4, 8, 32)]
+
+
+def rel_str(kind, op, detail):
+    return kind in ("decode", "parse", "result", "abs", "state", "bytes")
+
+
+# ---------------------------------------------------------------------------
 # relevance filters: which driver mismatch kinds break which property's tie
 # ---------------------------------------------------------------------------
 
@@ -324,6 +365,31 @@ PROPERTIES = {
         "scopes": lambda tier: tree_scopes(tier, logs=False) + hset_scopes(tier) + aset_scopes(tier, logs=False),
         "relevant": rel_C10,
         "assumptions": COMMON_ASSUME,
+    },
+    "C11": {
+        "scopes": lambda tier: pstr_scopes(tier) + podstr_scopes(tier),
+        "relevant": rel_str,
+        "assumptions": ["core Lean's ByteArray.validateUTF8/IsValidUTF8 coincide with Rust's str::from_utf8 (compared on every explored byte pattern: all byte strings of length <= 3 over 12 bytes covering every UTF-8 byte class, structured 4-byte cases)",
+                        "deref_mut hands out &mut str: in-place mutation through safe str methods preserves UTF-8 by the standard library's contract and is not modelled"],
+        "rule": "implementation transitions (buffer contents x operation), all strings of <= 2..3 chars over {NUL, a, e-acute, euro sign, U+1F600} at every buffer size listed; non-trivial = distinct buffers containing a non-ASCII byte",
+    },
+    "C13": {
+        "scopes": lambda tier: pstr_scopes(tier),
+        "relevant": rel_str,
+        "assumptions": [],
+        "rule": "implementation transitions (buffer contents x operation) incl. buffer sizes around the prefix maximum; non-trivial = distinct buffers containing a non-ASCII byte",
+    },
+    "C14": {
+        "scopes": lambda tier: podstr_scopes(tier),
+        "relevant": rel_str,
+        "assumptions": ["lossy Display of invalid text is compared with Rust's own String::from_utf8_lossy of the text before the first NUL (implementation-side oracle); the model only specifies Display for valid text"],
+        "rule": "implementation transitions (value bytes x operation); non-trivial = distinct values containing a non-ASCII byte",
+    },
+    "C15": {
+        "scopes": lambda tier: pod_scopes(tier),
+        "relevant": rel_str,
+        "assumptions": ["bytemuck's alignment panics are out of scope (all inner types used have alignment 1 or the harness aligns the buffer)"],
+        "rule": "implementation transitions (buffer x operation): all 256 byte values for PodBool at lengths 0,1,2,8; none-pattern and other patterns for PodOption over inner types of 1, 4, 8 (non-zero none-pattern) and 32 bytes at lengths n-1, n, n+1, n+7; non-trivial = distinct non-zero buffers",
     },
     "C12": {
         "scopes": lambda tier: edge_tree_scopes(tier) + edge_other_scopes(tier),
